@@ -2,6 +2,7 @@ use crate::report::Report;
 use crate::Args;
 
 pub mod c01;
+pub mod c02;
 pub mod c03;
 pub mod c04;
 pub mod c05;
@@ -23,6 +24,7 @@ pub fn run(a: &Args) -> Report {
         "c04" => c04::run(a),
         "c05" => c05::run(a),
         "c03" => c03::run(a),
+        "c02" => c02::run(a),
         "c01" => c01::run(a),
         "c11" => c11::run(a),
         "c12" => c12::run(a),
